@@ -21,6 +21,10 @@ type MethodEvaluator struct {
 	isParentheses    bool
 	isAmpersand      bool
 	outerEval        Eval
+
+	// the row the call starts on (its method name): where its argument errors
+	// are reported, however many lines the argument list spans
+	callRow int
 }
 
 func NewMethodEvaluator(
@@ -101,6 +105,7 @@ func NewMethodEvaluator(
 		evaluatedObjectT: evaluatedObjectT,
 		method:           methodIdentifierT.ToString(),
 		isAmpersand:      isAmpersand,
+		callRow:          p.ErrorRow,
 	}
 }
 
